@@ -77,7 +77,7 @@ theorem okNotify_alive (hw : WF t) (hl : validLocation cfg.location = true) (sea
     true_and, and_true]
   refine ⟨e, he, ⟨⟨h1.symm, h2.symm⟩, ?_⟩, ?_⟩
   · rw [h2]; exact heok.usn_prefix
-  · rw [hearAlive_ok heok cfg h2 (by rw [h1]; exact heok.st) hl]; simp [heardOk]
+  · rw [hearAlive_ok heok cfg h2 (by rw [h1]; exact heok.st) hl]; simp [heardOk, hl]
 
 theorem okNotify_byebye (hw : WF t) (hl : validLocation cfg.location = true) (searches : List SearchIn)
     (ann : Option AnnIn) (time : Int) {m : Msg} (hm : m ∈ byebyes t) :
@@ -92,7 +92,7 @@ theorem okNotify_byebye (hw : WF t) (hl : validLocation cfg.location = true) (se
     true_and, and_true]
   refine ⟨e, he, ⟨⟨h1.symm, h2.symm⟩, ?_⟩, ?_⟩
   · rw [h2]; exact heok.usn_prefix
-  · rw [hearByebye_ok heok cfg h2 (by rw [h1]; exact heok.st) hl]; simp [heardOk]
+  · rw [hearByebye_ok heok cfg h2 (by rw [h1]; exact heok.st) hl]; simp [heardOk, hl]
 
 theorem keyOf_aliveObs (start : Int) (i : Nat) :
     keyOf (aliveObs k t cfg target start i) = keyM (aliveAt t i) := rfl
